@@ -175,3 +175,18 @@ add("C15",
     shards={"quick": 16, "thorough": 16},
     require_counts=["refused_append_only", "dry_run_actions", "append_only_actions", "result:Backup/dry:ok", "result:RepairSnapshots/dry:ok"],
     )
+
+add("C05",
+    engine="TAMPER",
+    level="fault_enumeration",
+    technique="exhaustive single-fault enumeration over every stored file of repositories produced by real histories, judged by the real check and restore paths",
+    design_ref="DESIGN.md §4.4, §5 C05",
+    level_text="Five repositories built by real histories (fresh; after forget+prune with marked packs; duplicate blobs written through a stale handle; one-blob packs; repo version 1). For every stored file except config: remove; "
+               "truncate (boundary lengths quick / every length thorough); flip (quick: one bit of every byte, all 8 bits of every nonce, MAC and trailer byte; thorough: every bit); append; replace by each sibling of the same type; "
+               "same plaintext under another key; and for index files duplicate/drop a pack entry and drop a blob entry (re-sealed). Each faulted store is judged by the real `check --read-data`; if it is clean every snapshot must restore to its source "
+               "under the index listing in insertion and reversed order (thorough: all rotations x reversal). The unfaulted stores must be clean and restorable.",
+    level_note="Files larger than 2 KiB get their structural regions completely and ciphertext on a stride. check sleeps 100 ms per run, so cases run 48 at a time per worker.",
+    shards={"quick": 16, "thorough": 16},
+    rule="see evidence",
+    require_counts=["verdict:detected", "verdict:harmless", "detected:flip/pack/blob-ciphertext", "detected:flip/pack/pack-header", "detected:flip/pack/trailer", "detected:flip/index/ciphertext", "detected:flip/snapshot/ciphertext", "detected:index-drop-blob/index"],
+    )
